@@ -10,7 +10,7 @@ import numpy as np
 
 ID = "C19"
 SHARDS = {"quick": 8, "thorough": 16}
-BUDGET = {"quick": 40, "thorough": 240}
+BUDGET = {"quick": 300, "thorough": 1800}
 EXHAUSTIVE = True
 RULE = ("get_batch: every (nelements, nbatch) with 1<=nbatch<=nelements<=N "
         "(N=60 quick, 150 thorough) enumerated completely with every batch index, "
